@@ -19,7 +19,7 @@ TLP == << [del |-> 0, tot |-> 8], [del |-> 4, tot |-> 12], [del |-> 2, tot |-> 1
           [del |-> 3, tot |-> 9], [del |-> 0, tot |-> 6], [del |-> 8, tot |-> 24], [del |-> 0, tot |-> 1],
           [del |-> 1, tot |-> 7], [del |-> 0, tot |-> 8], [del |-> 4, tot |-> 8], [del |-> 2, tot |-> 8],
           [del |-> 0, tot |-> 8], [del |-> 1, tot |-> 8] >>    \* 13, 14: merged timelines (min delay, max total)
-Cfg(keytl, chain, hassel, hasb, hase2) == [TL |-> TLP, KeyTl |-> keytl, ChainNext |-> chain, HasSel |-> hassel, HasB |-> hasb, HasE2 |-> hase2]
+Cfg(keytl, chain, hassel, hasb, hase2) == [TL |-> TLP, KeyTl |-> keytl, ChainNext |-> chain, HasSel |-> hassel, HasB |-> hasb, HasE2 |-> hase2, C2Late |-> FALSE]
 Worlds == <<
   [c |-> Cfg(<<0, 0, 0>>, <<0, 0, 0>>, FALSE, FALSE, FALSE), tlA |-> 2, tlB |-> 0, tlE2 |-> 0, e2first |-> FALSE, key0 |-> 1],
   [c |-> Cfg(<<0, 0, 0>>, <<0, 0, 0>>, FALSE, FALSE, FALSE), tlA |-> 4, tlB |-> 0, tlE2 |-> 0, e2first |-> FALSE, key0 |-> 1],
@@ -73,9 +73,9 @@ C18Step(T) ==
   /\ (active /\ a0.pos >= Tot(a0)) => a1.st = "Ended"                         \* ended no later than one frame after
   /\ (active /\ a1.st = "Ended" /\ a0.st # "Ended") => a0.pos >= Tot(a0)      \* ... and never before
   /\ (active /\ Tot(a0) = INF) => a1.st # "Ended"                             \* never for infinite timelines
-  /\ (active /\ a1.st = "Ended" /\ a0.st # "Ended") =>                        \* holds the terminal values
+  /\ (active /\ a1.st = "Ended" /\ a0.st # "Ended" /\ (T # "A2" \/ w.hasc2)) =>     \* holds the terminal values
         (w'.cid[T][1] = "eval" /\ w'.cid[T][2] = a0.tl /\ w'.cid[T][4] >= Tot(a0))
-  /\ (active /\ a0.st = "Playing") => w'.cid[T] = <<"eval", a0.tl, a0.ovf, a0.pos>>   \* at most one frame old
+  /\ (active /\ a0.st = "Playing" /\ (T # "A2" \/ w.hasc2)) => w'.cid[T] = <<"eval", a0.tl, a0.ovf, a0.pos>>   \* at most one frame old
   /\ Cardinality({i \in 1..Len(w'.out) : w'.out[i][1] = T}) =
        Cardinality({i \in 1..Len(w.out) : w.out[i][1] = T}) + (IF a1.st # a0.st THEN 1 ELSE 0)   \* one event per change ...
   /\ (a1.st # a0.st => \E i \in 1..Len(w'.out) : w'.out[i] = <<T, a1.st>>)      \* ... carrying the end-of-frame state
